@@ -197,71 +197,61 @@ theorem choose_disabled_set_invariant (cfg cfg' : Cfg) (off : List String)
 
 /-! ## name level: is the *name that goes on the wire* offered and enabled? -/
 
-/-- For every mechanism other than the HT family a name parses to it only if it is its `toString`. -/
-theorem fromName_canonical_nonHt (n : String) (m : Mech) (h : fromName n = some m) (hnot : ∀ h' cb, m ≠ .ht h' cb) :
-    toName m = n := by
+/-- **Names are canonical**: a name parses to a mechanism only if it is exactly that mechanism's `toString`
+(for HT names this uses that the hash loop of `SaslHtMechanism::fromString` stops at the first match —
+`htHashLoopBreaks`, read from the source by the translator; before commit 0f385bc it did not, and
+`HT-SHA-256SHA-512-NONE` parsed as HT-SHA-512-NONE). -/
+theorem fromName_canonical (n : String) (m : Mech) (h : fromName n = some m) : toName m = n := by
   cases m with
   | simple f => exact fromName_simple_canonical h
   | scram a => exact fromName_scram_canonical h
-  | ht h' cb => exact absurd rfl (hnot h' cb)
+  | ht h' cb => exact fromName_ht_canonical htHashLoopBreaks_true h
 
-/-- **Name on the wire, all mechanisms except HT**: the emitted mechanism name was offered and is not disabled. -/
-theorem choose_name_offered_enabled_nonHt (cfg : Cfg) (off : List String) (m : Mech) (h : choose cfg off = some m)
-    (hnot : ∀ h' cb, m ≠ .ht h' cb) : toName m ∈ off ∧ toName m ∉ cfg.disabled := by
+/-- **Name on the wire**: for every mechanism (HT included) the emitted mechanism name was offered by the server and
+is not in the disabled list. -/
+theorem choose_name_offered_enabled (cfg : Cfg) (off : List String) (m : Mech) (h : choose cfg off = some m) :
+    toName m ∈ off ∧ toName m ∉ cfg.disabled := by
   obtain ⟨n, hn, hd, hf, _⟩ := choose_never_disabled_unoffered_unknown cfg off m h
-  rw [fromName_canonical_nonHt n m hf hnot]
+  rw [fromName_canonical n m hf]
   exact ⟨hn, hd⟩
 
-/-- **PLAIN is never used under the default configuration** (`defaultDisabled` is read from QXmppConfiguration.cpp),
-whatever is offered, preferred or stored. -/
-theorem default_never_plain (cfg : Cfg) (off : List String) (hd : cfg.disabled = defaultDisabled) :
-    choose cfg off ≠ some (.simple .plain) := by
-  intro h
-  have := (choose_name_offered_enabled_nonHt cfg off _ h (by intro _ _ hc; cases hc)).2
-  rw [hd] at this
-  exact this (by decide)
-
-/-- More generally a disabled non-HT mechanism is never chosen, also when it is the configured one. -/
-theorem disabled_name_never_chosen_nonHt (cfg : Cfg) (off : List String) (m : Mech)
-    (hnot : ∀ h' cb, m ≠ .ht h' cb) (hdis : toName m ∈ cfg.disabled) : choose cfg off ≠ some m := by
-  intro h
-  exact (choose_name_offered_enabled_nonHt cfg off m h hnot).2 hdis
-
-/-- **Name on the wire, partial** — full statement (false today, see `C05_defect_ht_alias`):
-`∀ cfg off m, choose cfg off = some m → toName m ∈ off ∧ toName m ∉ cfg.disabled`.
-Proved here under the extra hypothesis that every offered name is canonical (does not parse, or is the `toString`
-of its parse); missing: HT names on which the hash loop of `SaslHtMechanism::fromString` matches more than once. -/
-theorem choose_name_offered_enabled_partial (cfg : Cfg) (off : List String) (m : Mech) (h : choose cfg off = some m)
-    (hcan : ∀ n ∈ off, canonicalName n = true) : toName m ∈ off ∧ toName m ∉ cfg.disabled := by
-  obtain ⟨n, hn, hd, hf, _⟩ := choose_never_disabled_unoffered_unknown cfg off m h
-  have hc := hcan n hn
-  unfold canonicalName at hc
-  rw [hf] at hc
-  have : toName m = n := by simpa using hc
-  rw [this]; exact ⟨hn, hd⟩
-
-example : (∀ n ∈ ["HT-SHA-256-NONE", "HT-SHA3-512-NONE", "SCRAM-SHA-1", "PLAIN", "EXTERNAL", "HT-SHA-256-ENDP", "SCRAM-SHA-1-PLUS"],
-    canonicalName n = true) ∧
-    choose { creds := { password := true, htToken := some (0, .nob) } }
+example : choose { creds := { password := true, htToken := some (0, .nob) } }
       ["HT-SHA-256-NONE", "HT-SHA3-512-NONE", "SCRAM-SHA-1", "PLAIN", "EXTERNAL", "HT-SHA-256-ENDP", "SCRAM-SHA-1-PLUS"]
       = some (.ht 0 .nob) := by decide
 
-/-- **Defect (today's code).** The hash loop of `SaslHtMechanism::fromString` has no `break`: the offered name
-`HT-SHA-256SHA-512-NONE` parses as HT-SHA-512-NONE. With a stored token for HT-SHA-512-NONE the client then
-authenticates with the mechanism name `HT-SHA-512-NONE`, which the server did not offer — and does so even when
-the user has disabled `HT-SHA-512-NONE`. -/
-theorem C05_defect_ht_alias :
-    ¬ (∀ (cfg : Cfg) (off : List String) (m : Mech), choose cfg off = some m → toName m ∈ off ∧ toName m ∉ cfg.disabled) := by
-  intro hall
-  have h := hall { disabled := ["PLAIN", "HT-SHA-512-NONE"], creds := { password := true, htToken := some (2, .nob) } }
-    ["HT-SHA-256SHA-512-NONE", "SCRAM-SHA-1"] (.ht 2 .nob) (by decide)
-  exact absurd h (by decide)
-
-/-- The same witness on the manager: what is sent. -/
-theorem C05_defect_ht_alias_sent :
+/-- The former witnesses of the (fixed) defect: the doubly-matching name no longer parses, so the token mechanism is
+not used unless its own name is offered and enabled. -/
+theorem ht_alias_names_rejected :
+    fromName "HT-SHA-256SHA-512-NONE" = none ∧
     authenticate { disabled := ["PLAIN", "HT-SHA-512-NONE"], creds := { password := true, htToken := some (2, .nob) } }
-      ["HT-SHA-256SHA-512-NONE", "SCRAM-SHA-1"] = .sent "HT-SHA-512-NONE" false := by
+      ["HT-SHA-256SHA-512-NONE", "SCRAM-SHA-1"] = .sent "SCRAM-SHA-1" false ∧
+    authenticate { disabled := [], creds := { htToken := some (2, .nob) } } ["HT-SHA-256SHA-512-NONE"] = .mismatch [] := by
   decide
+
+/-- **A disabled mechanism is never used**, also when it is the configured one, whatever is offered or stored. -/
+theorem disabled_name_never_chosen (cfg : Cfg) (off : List String) (m : Mech) (hdis : toName m ∈ cfg.disabled) :
+    choose cfg off ≠ some m := by
+  intro h
+  exact (choose_name_offered_enabled cfg off m h).2 hdis
+
+/-- **PLAIN is never used under the default configuration** (`defaultDisabled` is read from QXmppConfiguration.cpp). -/
+theorem default_never_plain (cfg : Cfg) (off : List String) (hd : cfg.disabled = defaultDisabled) :
+    choose cfg off ≠ some (.simple .plain) := by
+  apply disabled_name_never_chosen
+  rw [hd]
+  decide
+
+/-- Every emitted name is one the server offered: on the managers. -/
+theorem authenticate_sends_offered_enabled (cfg : Cfg) (off : List String) (nm : String) (f : Bool)
+    (h : authenticate cfg off = .sent nm f) : nm ∈ off ∧ nm ∉ cfg.disabled := by
+  unfold authenticate at h
+  cases hc : choose cfg off with
+  | none => rw [hc] at h; cases h
+  | some m =>
+    rw [hc] at h
+    injection h with h1 _
+    rw [← h1]
+    exact choose_name_offered_enabled cfg off m hc
 
 /-! ## what the managers send -/
 
